@@ -151,6 +151,19 @@ class Opts(object):
         self.__dict__.update(kw)
 
 
+def deepen(o, tier):
+    """Thorough tier: larger worlds (more segments, channels, values per chunk, chunks; rare shapes twice as often)."""
+    if tier != 'thorough':
+        return o
+    o.max_segments = int(o.max_segments * 1.5) + 1
+    o.max_channels += 1
+    o.max_count = min(24, o.max_count * 2)
+    o.max_chunks += 2
+    for k in ('many_segments_p', 'long_run_p', 'huge_p', 'big_count_p'):
+        setattr(o, k, min(0.2, getattr(o, k) * 2))
+    return o
+
+
 def _names(rng, o):
     nasty = rng.random() < o.nasty_names
     names = {'/': []}
